@@ -14,6 +14,7 @@ by-design configuration (finding K7) and the witnesses that show each hypothesis
 All statements quantify over **every** history (any number of training steps with arbitrary effect on
 every trainable field, option changes, mode switches), every carrier `Sem` and every input.
 -/
+set_option linter.unusedSectionVars false
 namespace PlinioVerif.C17
 open PlinioVerif.Checkpoint
 variable {F V X O : Type} [DecidableEq F]
@@ -95,6 +96,22 @@ theorem save_resume_eq_save (σ : Sig F) (hl : NoLate σ) (init fresh : MState F
     have h2 : (resumeR σ fresh ops (run σ init ops)).present f = true := hpf f hp
     simp only [save, hp, h2, hpi f hp, Bool.and_self, if_true]
     exact congrArg some h1
+
+/-- loading a wrapper's own checkpoint changes nothing -/
+theorem load_own_checkpoint (σ : Sig F) (s : MState F V) : load σ (save σ s) s = s := by
+  cases s with
+  | mk val present training =>
+    simp only [load, save, isKey, MState.mk.injEq, and_true]
+    funext f
+    cases h : ((σ.kind f).persisted && present f) <;> simp [h]
+
+/-- training never writes configuration or constructor fields: after any history they hold what the
+history's configuration calls alone put there (this is what lets protocol R re-apply *only* those) -/
+theorem config_untouched_by_training (σ : Sig F) (s : MState F V) (ops : List (Op F V)) (f : F)
+    (hf : (σ.kind f).frozen = true) :
+    (run σ s ops).val f = (run σ s (cfgOf ops)).val f ∧ (run σ s ops).training = (run σ s (cfgOf ops)).training :=
+  let h := run_frozen σ ops (a := s) (b := s) ⟨fun _ _ => rfl, rfl⟩
+  ⟨h.val f hf, h.training⟩
 
 /-- **literal reading, the part that holds** — without re-applying anything (only the mode in which
 the caller observes), the resumed wrapper is still identical when the history left every configuration
